@@ -37,14 +37,22 @@ func propSpecs() map[string]*PropSpec {
 		Quick: lib, Thorough: lib, Covers: []string{"lib-case", "lang-case"},
 		Bounds: map[string]string{"quick": "56 library call groups on 2 symbolic bytes", "thorough": "same"},
 	})
+	var c09long []RunSpec
+	for f := int64(0); f < 14; f++ {
+		c09long = append(c09long, rs("H_C09long", f, 20))
+	}
+	var c09long2 []RunSpec
+	for f := int64(0); f < 14; f++ {
+		c09long2 = append(c09long2, rs("H_C09long", f, 70))
+	}
 	add(&PropSpec{
 		ID: "C09", Title: "lexer partitions the source into the documented tokens",
-		Quick: []RunSpec{rs("H_C09", 0, 0), rs("H_C09", 1, 0), rs("H_C09", 2, 0), rs("H_C09", 3, 0), rs("H_C09", 3, 1), rs("H_C09", 6, 2), rs("H_C09", 5, 3), rs("H_C09", 4, 4), rs("H_C09", 4, 6), rs("H_C09", 8, 8)},
-		Thorough: []RunSpec{rs("H_C09", 0, 0), rs("H_C09", 1, 0), rs("H_C09", 2, 0), rs("H_C09", 3, 0), rs("H_C09", 4, 0),
-			rs("H_C09", 4, 1), rs("H_C09", 8, 2), rs("H_C09", 7, 3), rs("H_C09", 6, 4), rs("H_C09", 5, 6), rs("H_C09", 9, 8)},
-		Covers: []string{"has-token", "two-tokens", "number", "string", "quoted-ident", "error-token", "ident", "float-value-checked", "hex-number"},
-		Bounds: map[string]string{"quick": "all byte strings of length <= 3 (full byte range); focused alphabets: numbers <= 3, strings/escapes <= 6, names/backticks/comments <= 5, operators <= 4, layout and odd bytes <= 4, two-literal alphabet {quote backslash t newline a} <= 8",
-			"thorough": "all byte strings of length <= 4 (full byte range); numbers <= 4, strings <= 8, names <= 7, operators <= 6, layout <= 5"},
+		Quick: append(append([]RunSpec{}, c09long...), []RunSpec{rs("H_C09", 6, 9), rs("H_C09", 0, 0), rs("H_C09", 1, 0), rs("H_C09", 2, 0), rs("H_C09", 3, 0), rs("H_C09", 3, 1), rs("H_C09", 6, 2), rs("H_C09", 5, 3), rs("H_C09", 4, 4), rs("H_C09", 4, 6), rs("H_C09", 8, 8)}...),
+		Thorough: append(append([]RunSpec{}, c09long2...), []RunSpec{rs("H_C09", 7, 9), rs("H_C09", 0, 0), rs("H_C09", 1, 0), rs("H_C09", 2, 0), rs("H_C09", 3, 0), rs("H_C09", 4, 0),
+			rs("H_C09", 4, 1), rs("H_C09", 8, 2), rs("H_C09", 7, 3), rs("H_C09", 6, 4), rs("H_C09", 5, 6), rs("H_C09", 9, 8)}...),
+		Covers: []string{"has-token", "two-tokens", "number", "string", "quoted-ident", "error-token", "ident", "float-value-checked", "hex-number", "long-checked", "integer-float-checked"},
+		Bounds: map[string]string{"quick": "all byte strings of length <= 3 (full byte range); focused alphabets: numbers <= 3, strings/escapes <= 6, names/backticks/comments <= 5, operators <= 4, layout and odd bytes <= 4, two-literal alphabet {quote backslash t newline a} <= 8, escapes before multi-byte characters {quote backslash C3 A9 a backtick} <= 6; 14 framed families: 2-3 arbitrary bytes around a run of one repeated character of every length 0..20 (hex of 1..22 digits incl. 16/17 digits and leading zeros, decimals around 2^63 and 2^64, long fractions and exponents, long strings, quoted and plain names, comments); in the numeric families the arbitrary bytes are case-split to concrete digits (64-bit conversion to decimal stalls bit-blasting)",
+			"thorough": "all byte strings of length <= 4 (full byte range); numbers <= 4, strings <= 8, names <= 7, operators <= 6, layout <= 5; framed families with runs 0..70; multi-byte escapes <= 7"},
 		Outside: []string{"sources longer than the bound", "BasicLit.Float64/Uint64 of float literals whose value needs more than one rounding step (decimal exponent beyond +-22 or mantissa >= 2^53); the others are decided per concrete spelling (floating point is outside the solver's theories: the spelling is enumerated, the accessor executed concretely)", "string values containing invalid UTF-8 together with an escape (don't-care)"},
 		Stubs:   []string{"unicode.IsSpace -> models.IsSpace (validated against the real table)", "utf8 decode/encode: engine model of the Go specification", "strings.{TrimLeft,ReplaceAll,ContainsAny} -> models", "strconv.{ParseUint,FormatUint} -> models", "fmt.Sprintf: error texts opaque"},
 	})
@@ -204,6 +212,14 @@ func propSpecs() map[string]*PropSpec {
 		for sh := int64(49); sh < 54; sh++ {
 			r = append(r, rs("H_C01", sh, 10))
 		}
+		for sh := int64(54); sh < 66; sh++ {
+			r = append(r, rs("H_C01", sh, 0))
+		}
+		for _, sh := range []int64{54, 55, 59, 64} {
+			for _, pos := range []int64{1, 6, 7, 9, 10, 11} {
+				r = append(r, rs("H_C01", sh, pos))
+			}
+		}
 		small := map[int64]bool{0: true, 4: true, 6: true, 9: true, 10: true, 13: true, 17: true, 20: true, 23: true, 26: true, 32: true, 36: true, 40: true}
 		for pos := int64(1); pos < 12; pos++ {
 			for sh := int64(0); sh < 49; sh++ {
@@ -219,7 +235,7 @@ func propSpecs() map[string]*PropSpec {
 		Quick:    c01(false),
 		Thorough: c01(true),
 		Covers:   []string{"compiled", "meaning-checked", "null-free-checked"},
-		Bounds: map[string]string{"quick": "49 expression shapes (+5 join-condition shapes with one-sided and same-sided comparisons, also under not) (ladders of <= 3 binary operators, every parenthesis placement, signs, indexing, in-lists, each built-in as operand and with operator arguments, pass-through calls of arity 0-3, qualified names, constants) with every binary operator slot arbitrary over the 15 operators, in the where position; 13 of the shapes in all 12 expression positions (project, extend named/unnamed, summarize aggregate and key, sort, take, top key and count, join on, let)",
+		Bounds: map[string]string{"quick": "61 expression shapes (+5 join-condition shapes with one-sided and same-sided comparisons, also under not) (repeated parentheses and signs around signed, indexed, in and not operands; ladders of <= 3 binary operators, every parenthesis placement, signs, indexing, in-lists, each built-in as operand and with operator arguments, pass-through calls of arity 0-3, qualified names, constants) with every binary operator slot arbitrary over the 15 operators, in the where position; 13 of the shapes in all 12 expression positions (project, extend named/unnamed, summarize aggregate and key, sort, take, top key and count, join on, let)",
 			"thorough": "all 49 shapes in all 12 positions"},
 		Outside: []string{"expression trees deeper than the shapes", "the real ClickHouse evaluator: grouping is read with its operator priorities as transcribed in harness/h/sqlparse.go, operators are uninterpreted functions (so the verdict holds for every data type), coalesce / IS NULL / CASE are interpreted"},
 		Stubs:   []string{tokStub},
@@ -240,7 +256,7 @@ func propSpecs() map[string]*PropSpec {
 		Quick:    c06(),
 		Thorough: c06(),
 		Covers:   []string{"compiled", "meaning-checked", "suffix-checked", "breaks-rule"},
-		Bounds: map[string]string{"quick": "22 use sites (operand of each operator class, under a sign, index base and index, in-list item, call argument, row counts, sort key, join conditions, quoted / qualified / function-name / table-name / alias contexts, built-in constant and function names) x 13 let prefixes (chains of up to three lets, shadowing, signed and compound values, parameter in a let value) x 3 suffixes (lets after the query) x 4 parameter maps (colliding with a let name, a column, built-in constants, $left); 7 shapes with every binary operator around and inside the binding arbitrary",
+		Bounds: map[string]string{"quick": "22 use sites (operand of each operator class, under a sign, index base and index, in-list item, call argument, row counts, sort key, join conditions, quoted / qualified / function-name / table-name / alias contexts, built-in constant and function names) x 16 let prefixes (chains of up to three lets, shadowing, parenthesised signed values, signed and compound values, parameter in a let value) x 3 suffixes (lets after the query) x 4 parameter maps (colliding with a let name, a column, built-in constants, $left); 7 shapes with every binary operator around and inside the binding arbitrary",
 			"thorough": "same as quick"},
 		Outside: []string{"parameter texts that are not a single SQL operand (inserted verbatim by contract)", "a bare join key that is also a binding name (the two documented rules conflict)", "more than three lets before the query"},
 		Stubs:   []string{tokStub + " (operator shapes only; the use-site family runs the real lexer on concrete programs)"},
